@@ -80,6 +80,20 @@ def watchdog(seconds, cpu=True):
         signal.signal(signum, old)
 
 
+def escape_signature(exc):
+    """escape:<Type>:<innermost scenic/pegen function>; an error raised by builtin compile()
+    on the translated tree (function compileTranslatedTree) also carries its message, since
+    there the function does not identify the construct."""
+    fn = where_raised(exc)
+    sig = f"escape:{type(exc).__name__}:{fn}"
+    if fn == "compileTranslatedTree":
+        import re
+
+        msg = re.sub(r"'[^']*'|\"[^\"]*\"", "Q", str(exc))
+        sig += ":" + re.sub(r"[^A-Za-z0-9_]+", "-", re.sub(r"\d+", "N", msg)).strip("-")[:60]
+    return sig
+
+
 def where_raised(exc):
     tb = traceback.extract_tb(exc.__traceback__)
     for fr in reversed(tb):
@@ -128,7 +142,7 @@ def judge(text):
     except RecursionError as e:
         return ("violation", f"escape:RecursionError:{where_raised(e)}", "RecursionError on a short input")
     except Exception as e:
-        return ("violation", f"escape:{type(e).__name__}:{where_raised(e)}", f"{type(e).__name__}: {str(e)[:300]}")
+        return ("violation", escape_signature(e), f"{type(e).__name__}: {str(e)[:300]}")
 
 
 # --- global state ---------------------------------------------------------------------------
